@@ -678,17 +678,18 @@ static inline int safec_out_char(char character, void *buffer, size_t idx,
     (void)buffer;
     (void)idx;
     (void)maxlen;
-    if (character) {
+    /* a NUL argument of %c is output like any other character; the
+       terminating NUL is only emitted for the buffer variants */
 #ifndef __KERNEL__
-        return putchar(character);
+    return putchar(character);
 #else
+    if (character) {
         int rc = 0;
         rc = slprintf("%c", character);
         return rc;
-#endif
     }
-    else
-        return 0;
+    return 0;
+#endif
 }
 
 #ifndef __KERNEL__
